@@ -17,8 +17,6 @@ namespace K
 variable {α : Type} [Add α] [Sub α] [Mul α] [Div α] [Neg α] [LT α] [LE α]
   [DecidableLT α] [DecidableLE α] [OfScientific α] [KOps α]
 
-/-- mirrors: command.rs::ValueChangeCommand (the latest unread write) -/
-abbrev Cmd (α τ : Type) := Option (Value α τ × Tween α)
 
 /-- mirrors: Parameter::read_command -/
 def readCmd {τ : Type} (p : Parameter α τ) (c : Cmd α τ) : Parameter α τ :=
